@@ -75,6 +75,19 @@ def make_experiments(d, seed):
             fam[r.name] = fam.get(r.name, 0) + 1
         singles = [r for r in sets[k] if fam[r.name] == 1 and not r.flag & 0x904 and len(r.cigar) >= 3]
         sets[k] = sets[k] + singles[3:3 + 5 * ndup:5]
+    # experiment C is polyA-trimmed data (no soft-clipped tails at all): what one experiment's share of tailed reads was must not reach the next
+    import copy as _copy
+    trimmed = []
+    for r in sets["C"]:
+        r2 = _copy.copy(r)
+        cig, seq = list(r.cigar), r.seq
+        if cig and cig[0][0] == 4:
+            seq, cig = seq[cig[0][1]:], cig[1:]
+        if cig and cig[-1][0] == 4:
+            seq, cig = seq[:-cig[-1][1]], cig[:-1]
+        r2.cigar, r2.seq = cig, seq
+        trimmed.append(r2)
+    sets["C"] = trimmed
     unm = {"A": 2, "B": 5, "C": 0}
     paths = {}
     for k, rs in sets.items():
@@ -203,7 +216,7 @@ def run(chk, scratch):
             seqs = [(["A", "B", "C"], "one", 1, "yaml"), (["B", "A"], "one", 4, "list"), (["A", "B"], "two", 1, "yaml"),
                     (["A", "A2"], "one", 1, "yaml"), (["A", "B"], ("one", "skew"), 1, "yaml"), (["B", "A"], ("skew", "one"), 2, "list"),
                     (["A", "B"], "two", 2, "yaml-unl:B"), (["B", "B "], "one", 2, "yaml"), (["SKIP", "A", "B"], "one", 1, "yaml-ill:SKIP,A"),
-                    (["A", "A2", "B"], "one", 1, "list-rgtable"), (["A", "B"], "one", 1, "yaml-ill:A,B")]
+                    (["A", "A2", "B"], "one", 1, "list-rgtable"), (["A", "B"], "one", 1, "yaml-ill:A,B"), (["C", "A"], "one", 2, "list")]
         # stand-alone runs (per experiment x files x threads x mode)
         # a sequence whose experiments differ in the number of files runs (stand-alone and joint) with an explicit --read_group file_name,
         # which a mixed sequence would otherwise switch on implicitly for all experiments
